@@ -283,8 +283,7 @@ def residual_arms(ctx):
 
 
 def run(ctx):
-    for name, fn in families(ctx):
-        ctx.guarded(name, fn)
+    ctx.run_families(families(ctx))
     ctx.bounds += ['all 2^6 bucket-emptiness states; completions quantified at bucket granularity (some residual permit / forbid becomes satisfied or none does)',
                    'replay: one policy per non-empty bucket, every binding of each unknown in {true, false, non-boolean}, reauthorize vs. authorization from scratch']
     ctx.assumptions += ['HashMap::is_empty / iter and iterator adaptors as logged terms; closure bodies executed from the MIR on one abstract member per bucket',
